@@ -28,7 +28,7 @@ Section L.
     extract_member St rd sk legacy fuel base bufsz h od r t = (Done, t', r') ->
     exists p, rel_under base (h_name h) = Some p /\ p <> [] /\ t_get p t' = Some (ELink (h_link h)) /\ r' = r.
   Proof.
-    intros fuel base bufsz h od r t t' r' Hty H. unfold extract_member in H. rewrite Hty in H.
+    intros fuel base bufsz h od r t t' r' Hty H. unfold extract_member, extract_member_g, relp in H. cbv beta iota zeta in H. rewrite Hty in H.
     change (isreg T_SYM) with false in H. change (T_SYM =? T_DIR) with false in H.
     change (T_SYM =? T_SYM) with true in H. cbv iota in H.
     destruct (t_isdir [] t && bytes_eqb (h_name h) base); [discriminate|].
@@ -47,7 +47,7 @@ Section L.
       rel_under base (h_name h) = Some p /\ rel_under base (h_link h) = Some q /\
       t_get q t1 = Some (EFile m0 content) /\ t_get p t' = Some (EFile (h_mode h) content) /\ r' = r.
   Proof.
-    intros fuel base bufsz h od r t t' r' Hty H. unfold extract_member in H. rewrite Hty in H.
+    intros fuel base bufsz h od r t t' r' Hty H. unfold extract_member, extract_member_g, relp in H. cbv beta iota zeta in H. rewrite Hty in H.
     change (isreg T_LNK) with false in H. change (T_LNK =? T_DIR) with false in H.
     change (T_LNK =? T_SYM) with false in H. change (T_LNK =? T_LNK) with true in H. cbv iota in H.
     destruct (t_isdir [] t && bytes_eqb (h_name h) base); [discriminate|].
